@@ -108,7 +108,19 @@ contract(AF + '.load_line_objects', props=['C17', 'C06', 'C05', 'C08'], blocks_o
                  SCOPE_STEP.format(e='old'), 'scope_wf(current_scope)', 'cs_wf(condition_stack)'],
              modifies=WIDE + ['line_objects[*]', '*._compilable:LineObject', '*._is_muted:LineObject',
                               '*._label_scope:LineObject', 'all-dicts:dict[str,LabelInfo]'],
-             allocates=True)},
+             allocates=True),
+             # every file -- included or not -- starts in its own file scope and in the GLOBAL zone
+             'start-scope': dict(where='from:current_scope = self.label_scope:1', locals={}, requires=[],
+                                 ensures=['current_scope is self._label_scope'], modifies=[]),
+             'register': dict(where='from:assembly_files_used.add(self.filename):1', locals={}, requires=[],
+                              # a loaded file is recorded, so a second include of it is rejected (_handle_include_file)
+                              ensures=['self._filename in assembly_files_used',
+                                       'forall(lambda s: implies(old(s in assembly_files_used), s in assembly_files_used),'
+                                       ' types={"s": "str"})'],
+                              modifies=['assembly_files_used[*]']),
+             'start-zone': dict(where='from:current_memzone = memzone_manager.global_zone:1', locals={},
+                                requires=[], may_raise={'KeyError': 'True'},
+                                ensures=['current_memzone is mapping(memzone_manager._zones)["GLOBAL"]'], modifies=[])},
          loops={'0.0': dict(idx='m', allocates=True,
                             modifies=['line_objects[*]', '*._compilable:LineObject', '*._is_muted:LineObject',
                                       '*._label_scope:LineObject', 'all-dicts:dict[str,LabelInfo]'],
